@@ -17,7 +17,7 @@ pub const WAIT: u8 = 0;
 pub const WAIT_TO: u8 = 1; // arg ns; gives up when it times out
 pub const WAIT_WHILE: u8 = 2;
 pub const WAIT_QUIT: u8 = 7; // arg ns; waits once with a time-out and never takes a ticket
-pub const GRANT_ONE: u8 = 3; // avail += 1; notify_one
+pub const GRANT_ONE: u8 = 3; // avail += 1; notify_one (op.2 = hold ns > 0: notify with the mutex held, keep it that long)
 pub const GRANT_ALL: u8 = 4; // avail += arg; notify_all
 pub const YIELD: u8 = 5;
 pub const SLEEP: u8 = 6; // arg ns
@@ -187,17 +187,34 @@ fn run_ticket(case: &Case) -> Outcome {
                     }
                     GRANT_ONE | GRANT_ALL => {
                         let c = log.call(ai, i, op.0);
-                        {
+                        if op.2 == 0 {
+                            {
+                                let mut g = m.lock().unwrap();
+                                let mut held = Held(&occ, false, &bad);
+                                held.acquire();
+                                *g += if op.0 == GRANT_ONE { 1 } else { op.1 as usize };
+                                drop(held);
+                            }
+                            if op.0 == GRANT_ONE {
+                                cv.notify_one();
+                            } else {
+                                cv.notify_all();
+                            }
+                        } else {
+                            // notify with the mutex held and keep it for a while: the woken
+                            // waiters block in the re-lock inside Condvar::wait
                             let mut g = m.lock().unwrap();
                             let mut held = Held(&occ, false, &bad);
                             held.acquire();
                             *g += if op.0 == GRANT_ONE { 1 } else { op.1 as usize };
+                            if op.0 == GRANT_ONE {
+                                cv.notify_one();
+                            } else {
+                                cv.notify_all();
+                            }
+                            sleep_ns(op.2 as u64);
                             drop(held);
-                        }
-                        if op.0 == GRANT_ONE {
-                            cv.notify_one();
-                        } else {
-                            cv.notify_all();
+                            drop(g);
                         }
                         log.ret(c, 0, 0);
                     }
@@ -398,12 +415,12 @@ pub fn strategy(g: &GenCfg) -> BoxedStrategy<Case> {
     let wop = prop_oneof![3 => Just(Op(WAIT, 0, 0)), 3 => d().prop_map(|d| Op(WAIT_TO, d, 0)), 1 => Just(Op(WAIT_WHILE, 0, 0)), 2 => d().prop_map(|d| Op(WAIT_QUIT, d, 0)), 1 => Just(Op(YIELD, 0, 0)), 1 => d().prop_map(|d| Op(SLEEP, d, 0))];
     let waiter = (0u8..2, proptest::collection::vec(wop, 1..4)).prop_map(|(ctx, ops)| Actor { ctx, role: 0, ops });
     let g3 = g2.clone();
-    let ticket = (proptest::collection::vec(waiter, 1..=4), 0u8..2, any::<bool>(), proptest::collection::vec(prop_oneof![2 => Just(0u32), 1 => d()], 8))
-        .prop_flat_map(move |(waiters, nctx, use_all, delays)| {
+    let ticket = (proptest::collection::vec(waiter, 1..=4), 0u8..2, any::<bool>(), proptest::collection::vec(prop_oneof![2 => Just(0u32), 1 => d()], 8), proptest::collection::vec(prop_oneof![2 => Just(0u32), 1 => 1u32..300_000], 4))
+        .prop_flat_map(move |(waiters, nctx, use_all, delays, holds)| {
             let n = waiters.len();
-            (Just((waiters, nctx, use_all, delays)), canceller_strategy(n, 3_000_000), gen::config(&g3), gen::schedule(&g3, true))
+            (Just((waiters, nctx, use_all, delays, holds)), canceller_strategy(n, 3_000_000), gen::config(&g3), gen::schedule(&g3, true))
         })
-        .prop_map(|((mut actors, nctx, use_all, delays), canc, (workers, pool, feat), sched)| {
+        .prop_map(|((mut actors, nctx, use_all, delays, holds), canc, (workers, pool, feat), sched)| {
             // grants = number of waiting ops: sufficient whatever gives up or is cancelled;
             // every grant is followed by notify_one, the last one (optionally) by notify_all
             let k: usize = actors.iter().map(|a: &Actor| a.ops.iter().filter(|o| matches!(o.0, WAIT | WAIT_TO | WAIT_WHILE)).count()).sum();
@@ -413,10 +430,11 @@ pub fn strategy(g: &GenCfg) -> BoxedStrategy<Case> {
                 if dl > 0 {
                     ops.push(Op(SLEEP, dl, 0));
                 }
+                let hold = holds[i % holds.len()];
                 if use_all && i + 1 == k {
-                    ops.push(Op(GRANT_ALL, 1, 0));
+                    ops.push(Op(GRANT_ALL, 1, hold));
                 } else {
-                    ops.push(Op(GRANT_ONE, 0, 0));
+                    ops.push(Op(GRANT_ONE, 0, hold));
                 }
             }
             actors.push(Actor { ctx: nctx, role: 0, ops });
